@@ -27,6 +27,7 @@ Definition lzip (f : Q -> Q -> Q) (A B : lmat) : lmat :=
 Definition ladd := lzip qadd.
 Definition lsub := lzip qsub.
 Definition l00 (A : lmat) : Q := hd 0%Q (hd [] A).
+Definition lscale (c : Q) (A : lmat) : lmat := map (map (qmul c)) A.
 
 Definition lid (n : nat) : lmat :=
   map (fun i => map (fun j => if Nat.eqb i j then 1%Q else 0%Q) (seq 0 n)) (seq 0 n).
